@@ -1322,7 +1322,11 @@ def developer_assertion(F, s):
     # loop (in the dispatch function: the rest of the opcode arm) or the end of the function
     cur = s['block']
     cont = None
-    for _ in range(30):
+    if s['kind'] == 'assert':
+        # a machine check (overflow) inside the expansion of the assertion: part of evaluating its condition
+        cont = [s['term']['target']] if s['term'].get('target') is not None else []
+        test_block = s['block']
+    for _ in range(30 if cont is None else 0):
         preds = fn.pred(cur)
         if len(preds) != 1:
             break
@@ -1334,7 +1338,9 @@ def developer_assertion(F, s):
         cur = preds[0]
     if cont is None:
         return None
-    headers = {h for h, body in fn.natural_loops() if test_block in body}
+    # ... up to the next loop of any kind: what runs inside a later loop (the dispatch loop after the set-up of run) is guarded by
+    # that loop's own invariants, not by an assertion made once before it
+    headers = {h for h, body in fn.natural_loops()}
     after = set()
     for c0 in cont:
         after |= fn.reachable(c0, stop=headers)
